@@ -23,6 +23,7 @@ type Oblig struct {
 	enc    *Enc
 	Result *SolveResult
 	Inputs []string // names of constants that are the function's inputs (for models)
+	auto   *Clause  // inferred invariant this obligation checks
 }
 
 // Fact is an assumption, included in a query when one of its symbols is needed.
@@ -73,6 +74,10 @@ type Enc struct {
 	specErrs []string
 	inferred map[*loopInfo][]*Clause
 	usedInvs map[string]bool
+	houdini    bool
+	firstRound bool
+	keptInv    map[loopKey][]*Clause
+	candByLoop map[loopKey][]*Clause
 }
 
 func newEnc(P *Program, U *Universe, fn *ssa.Function) *Enc {
@@ -143,6 +148,23 @@ func (e *Enc) assume(t Term, syms ...string) {
 	for _, s := range syms {
 		e.factsBy[s] = append(e.factsBy[s], idx)
 	}
+}
+
+// assumeAbout attaches a fact to every declared constant of the given terms.
+func (e *Enc) assumeAbout(t Term, about ...Term) {
+	var syms []string
+	for _, a := range about {
+		symbols(a.S, func(s string) {
+			if _, ok := e.decls[s]; ok {
+				syms = append(syms, s)
+			}
+		})
+	}
+	if len(syms) == 0 {
+		e.assume(t)
+		return
+	}
+	e.assume(t, syms...)
 }
 
 // family returns the current array term for a heap family in state st.
